@@ -177,6 +177,14 @@ def matches(want, got):
     if isinstance(want, bool) or isinstance(got, bool): return want is got
     return want == got and type(want) is type(got)
 
+def odd_offset(v):
+    from opcua_tools import ua_data_types as T
+    if isinstance(v, T.UAVariant): v = v.value
+    if isinstance(v, T.UADateTime) and isinstance(v.value, datetime.datetime) and v.value.tzinfo is not None:
+        off = v.value.utcoffset()
+        return off is not None and (off.seconds % 60 != 0 or off.microseconds != 0)
+    return False
+
 def judge(v):
     out = impl_json(v)
     fails = []
@@ -247,6 +255,11 @@ def check(ctx):
               T.UAVariant(T.UAUInt32(3)), T.UAVariant(T.UAFloat(1.5)), T.UAVariant(T.UAString("s")), T.UAVariant(T.UAGuid("12345678-9ABC-DEF0-1234-56789ABCDEF0")),
               T.UAVariant(T.UAByteString(b"ab")), T.UAVariant(T.UAXMLElement("<a/>")), T.UAVariant(T.UANodeId(1, "i", "5")), T.UAVariant(T.UALocalizedText("t", "en")),
               T.UAVariant(T.UADateTime(datetime.datetime(2020, 1, 2, 3, 4, 5, tzinfo=datetime.timezone.utc))),
+              # date-times with an offset that is not a whole number of seconds (local mean solar time), with sub-second parts, near a day boundary
+              T.UADateTime(datetime.datetime(2021, 6, 1, 12, 0, 0, 250000, tzinfo=datetime.timezone(datetime.timedelta(minutes=43, microseconds=528000)))),
+              T.UADateTime(datetime.datetime(2021, 6, 1, 0, 0, 0, 1, tzinfo=datetime.timezone(datetime.timedelta(hours=5, seconds=17, microseconds=999999)))),
+              T.UADateTime(datetime.datetime(1999, 12, 31, 23, 59, 59, 999999, tzinfo=datetime.timezone(-datetime.timedelta(hours=4, minutes=56, seconds=2, microseconds=500000)))),
+              T.UAVariant(T.UADateTime(datetime.datetime(2021, 6, 1, 12, 0, 0, 250000, tzinfo=datetime.timezone(datetime.timedelta(minutes=43, microseconds=528000))))),
               # long lists (every element is part of the Body)
               T.UAListOf(tuple(T.UAInt32(i) for i in range(1001)), "Int32"), T.UAListOf(tuple(T.UAUInt16(i % 7) for i in range(1500)), "UInt16"), T.UAListOf(tuple(T.UADouble(i + 0.5) for i in range(1001)), "Double"),
               # texts at the edge of what a quoting shortcut might look at: a final line feed, only a line feed, a final backslash, a final quote
@@ -256,6 +269,12 @@ def check(ctx):
         v = corpus[i] if i < len(corpus) else gen(rng)
         if v is None: continue
         out, fails = judge(v)
+        if odd_offset(v):
+            # the model's datetimes carry their UTC offset in whole minutes (as uaconv sends them); an offset with seconds or
+            # microseconds is judged by the oracle alone
+            ctx.record("odd-offset:" + repr(v), True, ["odd-offset"])
+            for sig, detail in fails: ctx.fail(sig, dict(kind="py", expr=repr_expr(v)), detail)
+            continue
         sx = to_jsx(v)
         # a Variant: the model infers the Type number from the value's class itself (M_C10r.variant_type_of)
         reqs.append([Sym("c10_variant_auto"), ext_table(v), sx[1]] if isinstance(v, T.UAVariant) else [Sym("c10_json"), ext_table(v), sx]); meta.append((v, out))
